@@ -267,6 +267,29 @@ CLAIMED = {
         "per call; uniqueness of the pseudo-inverse root is a named hypothesis; steps with an eigenvalue "
         "at the cut-off or beyond the amplification cap are counted and excluded.",
         "DESIGN.md 7/C15"),
+    "C07": (
+        "Coq proof (layout calculus over C06.Ref: accepted configurations, init / update / sharded "
+        "declarations as functions on tree structure, static metadata, leaf shapes and dtypes; "
+        "fixed-point theorems by induction over the number of updates) + layout correspondence on "
+        "the real optimizers (init + T updates, replicated / pmap / int16-quantized pmap / sharded)",
+        "Theorems in Properties/C07.v for every configuration, parameter tree (any rank, unit dims, "
+        "any parameter dtype) and number of updates k: the state layout after k updates equals the "
+        "initial layout (Distributed Shampoo replicated and sharded, SM3, Tearfree); init and "
+        "Tearfree's option validation never end in an internal error (only Ok or an explicit "
+        "rejection); the update tree is shaped and typed like the parameters; the three sharded views "
+        "(initial state, declared shapes/dtypes, partition specs) describe one tree; the pre-fix "
+        "behaviours (D7, D8, D10, D11, N1, N6, N9) are refuted by witnesses under the as_is flags. "
+        "Tie: for every generated (configuration, tree) - 33 pairwise-covered Distributed Shampoo "
+        "options incl. parameter dtype, SM3, Tearfree - the real optimizer is run and (a) the "
+        "property is evaluated on the implementation, (b) the model's Reject / Ok-layout prediction "
+        "must agree leaf by leaf with the observed signatures and map every observed state layout to "
+        "the observed successor.",
+        "Trusted: Coq kernel + vm_compute; no axioms. Hand-written layout model tied by correspondence "
+        "(sampling bounded by the pairwise generator); optax's own state layouts and Tearfree "
+        "partition-spec trees are taken as observed; one dtype per parameter tree. Open findings "
+        "C07-N2 (lobpcg on small statistics) and C07-N5 (sharded declarations on the empty tree) are "
+        "printed as KNOWN-FINDING.",
+        "DESIGN.md 7/C07"),
 }
 
 NOT_YET = {}
